@@ -4,7 +4,7 @@ from . import classlaws, fingerprint
 
 def build(repo, tier, seed):
     vcs, und, sanity = fingerprint.build(repo)
-    b = classlaws.bundle(repo, tier, seed, ("L1", "L2"), extra_vcs=vcs, extra_sanity=sanity)
+    b = classlaws.bundle(repo, tier, seed, ("L1", "L2"), classes=classlaws.READY + ["Dataset"], extra_vcs=vcs, extra_sanity=sanity)
     b["undecided"] += und
     b["functions"].append({"name": "labrea.types:Cacheable.fingerprint", "sha256_16": repo.sha(repo.module("types"), repo.module("types").classes["Cacheable"].methods["fingerprint"])})
     b["assumptions"].append("hash-seed independence: the engine gives iteration over a key set an arbitrary order (quantified), the only ordered consumer is sorted(); "
